@@ -30,7 +30,7 @@ def run(tier):
     common.replay_witnesses(ck, ["hook"])
     common.replay_known(ck)
     avoid = ck.findings.avoid_tags()
-    n = 1500 if quick else 40000
+    n = 1500 if quick else 40000 * common.TS
     plist = []
     for name, prof in profiles(avoid):
         rng = ck.rng.fork(name)
@@ -39,19 +39,19 @@ def run(tier):
             plist.append({"name": "%s/%d" % (name, i), "steps": [("snip", src)], "mods": mods})
 
     r2 = ck.rng.fork("xmod")
-    for i in range(400 if quick else 10000):
+    for i in range(400 if quick else 10000 * common.TS):
         src, mods = feat_exc.xmod_program(r2.fork(str(i)))
         plist.append({"name": "xmod/%d" % i, "steps": [("snip", src)], "mods": mods})
 
     r3 = ck.rng.fork("locals")
-    for i in range(500 if quick else 15000):
+    for i in range(500 if quick else 15000 * common.TS):
         plist.append({"name": "locals/%d" % i, "steps": [("snip", feat_exc.local_integrity_program(r3.fork(str(i))))], "mods": []})
 
     # exception state must not leak from one run into the next on the same interpreter (uncaught throws of every kind
     # followed by try / finally in later snippets)
     from ..gen import feat_repl
     r4 = ck.rng.fork("runs")
-    for i in range(200 if quick else 6000):
+    for i in range(200 if quick else 6000 * common.TS):
         steps, hm = feat_repl.history(r4.fork(str(i)))
         plist.append({"name": "runs/%d" % i, "steps": steps, "mods": hm})
 
